@@ -33,8 +33,9 @@ deriving DecidableEq, Repr, Inhabited
 `ret`: 0 = no `return` method, 1 = `return(v)` answers `{value: v, done: true}`, 2 = `return` throws the string "X<id>",
 3 = `return` answers a non-object (the number 5).
 `thr`: 0 = no `throw` method, 1 = rethrows, 2 = returns `{done:true}`, 3 = returns `{done:false}`, 4 = returns a non-object.
-`id ≥ 10` (object kind): the iterator's SECOND `next()` call makes a re-entrant call on the generator under test
-(`id / 10 - 1` = 0 next / 1 throw / 2 return), catches what it throws and logs it. -/
+`10 ≤ id < 40` (object kind): the iterator's SECOND `next()` call makes a re-entrant call on the generator under test
+(`id / 10 - 1` = 0 next / 1 throw / 2 return), catches what it throws and logs it.
+`id ≥ 40` (object kind): the iterator's SECOND `next()` call throws the string "N<id>". -/
 structure IterSpec where
   id : Nat
   isGen : Bool
@@ -230,11 +231,13 @@ def reentOutcome (kd : CmdKind) : Val :=
   | _ => .undef
 
 def IterSpec.reentKind (s : IterSpec) : Option CmdKind :=
-  if s.isGen || s.id < 10 then none
+  if s.isGen || s.id < 10 || s.id ≥ 40 then none
   else match s.id / 10 - 1 with
     | 0 => some .next
     | 1 => some .throw
     | _ => some .ret
+
+def IterSpec.nextThrows (s : IterSpec) : Bool := !s.isGen && s.id ≥ 40
 
 def iterNext (st : IterState) (v : Val) : List Event × IterOut :=
   let s := st.spec
@@ -243,6 +246,8 @@ def iterNext (st : IterState) (v : Val) : List Event × IterOut :=
     match s.reentKind with
     | some kd => if st.pos == 1 && 1 < s.items.length then ev ++ [s.tag ++ "x" ++ showVal (reentOutcome kd)] else ev
     | none => ev
+  if s.nextThrows && st.pos == 1 && 1 < s.items.length then (ev, .threw (.str ("N" ++ natStr s.id)))
+  else
   match s.items[st.pos]? with
   | some it => (ev, .yielded it { st with pos := st.pos + 1, started := true })
   | none => (if s.isGen then ev ++ [s.tag ++ "f"] else ev, .done (.str ("R" ++ natStr s.id)))
